@@ -76,7 +76,7 @@ def correspondence(ctx):
     r = Result()
     r.nontrivial = _util.Tally()
     common.impl()
-    docs = _docs(ctx, 'corr-docs', ctx.pick(15000, 150000))
+    docs = _docs(ctx, 'corr-docs', ctx.pick(8000, 100000))
     for tol, fn in ((0, _impl_parse0), (1, _impl_parse1)):
         impl = gen.pmap(fn, docs)
         model = common.model_batch_parallel([common.parse_req(s, tol) for s in docs])
@@ -317,7 +317,7 @@ def oracle(ctx, seeds, scale):
     r.nontrivial = _util.Tally()
     common.impl()
     docs = [s for s in seeds if isinstance(s, str)]
-    docs += _docs(ctx, 'oracle-docs', ctx.pick(12000, 120000) * scale)
+    docs += _docs(ctx, 'oracle-docs', ctx.pick(8000, 100000) * scale)
     res = gen.pmap(_oracle_doc, docs, chunk=50)
     for s, (st, fails) in zip(docs, res):
         r.count(('doc', s), st.get('nodes', 0) + st.get('text_tokens', 0) >= 3)
